@@ -61,9 +61,9 @@ Definition wildcard_answer_state (sname : name) (st : vstate) (signer : name) (o
   end.
 (* the whole reply: validate_groups over the answer group and the authority groups first *)
 Definition wildcard_msg_state (sname : name) (st : vstate) (signer : name) (oce : option name)
-  (ngs : list (vgroup * vstate)) : outcome vstate :=
-  match validate_groups (st :: map snd ngs) with
+  (ngs : list (vgroup * vstate)) (n3gs : list (n3group * vstate)) : outcome vstate :=
+  match validate_groups (st :: map snd ngs ++ map snd n3gs) with
   | None => Ok Bogus
-  | Some _ => wildcard_answer_state sname st signer oce (map fst ngs) []
+  | Some _ => wildcard_answer_state sname st signer oce (map fst ngs) (map fst n3gs)
   end.
 End Wild.
